@@ -370,7 +370,9 @@ def rules(tier):
             # C18-eb: _find_cp memoised without bottom_level
             ('C18.R19', _shared_rule('c10', 'r4_exact_last_transition')),
             # C18-ea: CP.level written without encoding=
-            ('C18.R20', _shared_rule('c07', 'r2_encoding_agreement'))]
+            ('C18.R20', _shared_rule('c07', 'r2_encoding_agreement')),
+            # C18-eb: _find_cp memoised under (ip, top_level)
+            ('C18.R21', _shared_rule('c10', 'r25_cracker_plumbing'))]
 
 
 META = {
